@@ -430,6 +430,23 @@ def check_priority_table(seed, n_cases=150, hash_seeds=()):
                 v.append(f"composed DAG: compound priority (got, expected) {bad}")
         except ValueError:
             pass
+        # a sequence of re-configurations of the SAME DAG object (seeded change C07_R: an incremental update of the table that
+        # is right for one configuration and drifts from the second on): after every step the table of the DAG and of a new
+        # executor is the closed form over the CURRENT priorities
+        for step in range(3):
+            tgt = rnd.choice(w.order) if step != 1 else tgt  # noqa: F821  (step 1 re-configures the node of step 0)
+            newp = rnd.choice([p_ for p_ in (-3, 0, 1, 2, 7, 11) if p_ != w.nodes[tgt]["prio"]])
+            try:
+                d.config_from_dict({"nodes": {tgt: {"priority": newp}}})
+            except Exception as e:  # noqa: BLE001
+                v.append(f"config_from_dict(priority of {tgt}) raised {type(e).__name__}: {e}")
+                break
+            w.nodes[tgt]["prio"] = newp
+            expn = {n: w.compound_priority(n) for n in w.order}
+            for where, g in (("dag.graph_ids", d.graph_ids), ("executor()", d.executor().graph)):
+                bad = {n: (g.compound_priority[n], expn[n]) for n in g.nodes if g.compound_priority[n] != expn[n]}
+                if bad:
+                    v.append(f"after re-configuration {step + 1} (priority of {tgt} := {newp}), {where}: compound priority (got, expected) {bad}")
         if v:
             viol.append(dict(kind="history", check="priority_table", seed=seed, index=idx, world=w.describe(), violations=v))
     if hash_seeds:
